@@ -30,7 +30,7 @@ def gen(rng, n):
         if rng.random() < 0.15:
             s.calls = R.gen_calls(rng, R.unlimited(s), s.start)
         s.sched = R.gen_schedule(rng, s, ext=rng.random() < 0.6)
-        yield s.encode()
+        yield R.add_concurrent_build(rng, s, 0.04).encode()
 
 
 def exhaustive():
